@@ -58,6 +58,7 @@ class Contract:
         self.inline = kw.get("inline", False)
         self.ghost = kw.get("ghost", {})
         self.lets = kw.get("let", {})           # name -> expr, evaluated at entry (after requires)
+        self.bind = kw.get("bind", {})          # function parameter -> name of a let / param (derived argument)
         self.post_lets = kw.get("post_let", {})  # name -> expr, evaluated at exit
         self.kind = kw.get("kind", "function")  # function | lemma
         self.covers = kw.get("covers", {})
@@ -428,17 +429,21 @@ class ContractSet:
         names = [p.arg for p in a.posonlyargs + a.args]
         kwargs = {}
         for p in names:
-            if p in loc:
+            if p in loc and p not in c.bind:
                 args.append(loc[p])
             else:
                 break
         for p in names[len(args):]:
-            if p in loc:
+            if p in loc and p not in c.bind:
                 kwargs[p] = loc[p]
         for p in a.kwonlyargs:
             if p.arg in loc:
                 kwargs[p.arg] = loc[p.arg]
+        for p, src in c.bind.items():
+            kwargs[p] = sfr.locals[src]
         path.ghost["inputs"] = dict(loc)
+        for p, src in c.bind.items():
+            path.ghost["inputs"][p] = sfr.locals[src]
         try:
             coro = I.call_func(fv, args, kwargs)
             result = I.await_(coro)
